@@ -34,17 +34,227 @@ pub mod shim_a {
         }
         None
     }
+    /// model of `(offset..).zip(slice[offset..].iter())` (N2): a cursor over the indexed bytes of `slice` from `offset`
+    pub struct Cursor<'a> { pub pos: usize, pub s: &'a [u8] }
+    impl<'a> Cursor<'a> {
+        /// `slice[offset..]` panics unless offset <= len: the same obligation
+        pub fn new(offset: usize, s: &'a [u8]) -> (r: Self)
+            requires offset <= s@.len()
+            ensures r.pos == offset, r.s == s
+        { Cursor { pos: offset, s } }
+        /// contract of `Iterator::find` on it: the first (index, byte) from the cursor on whose byte satisfies `f`;
+        /// the cursor moves behind it (to the end if there is none). `c` names the byte class `f` decides.
+        pub fn find<F: Fn(u8) -> bool>(&mut self, c: Ghost<super::Cls>, f: F) -> (r: Option<(usize, u8)>)
+            requires
+                old(self).pos <= old(self).s@.len(),
+                forall|b: u8| f.requires((b,)),
+                forall|b: u8, x: bool| f.ensures((b,), x) ==> x == super::cls(c@, b),
+            ensures
+                final(self).s == old(self).s, final(self).pos <= final(self).s@.len(),
+                match super::first_from(old(self).s@, old(self).pos as int, c@) {
+                    Some(i) => r == Some((i as usize, old(self).s@[i])) && final(self).pos == i + 1 && old(self).pos <= i < old(self).s@.len()
+                        && super::cls(c@, old(self).s@[i]),
+                    None => r is None && final(self).pos == old(self).s@.len(),
+                },
+        {
+            let ghost p0 = self.pos as int;
+            while self.pos < self.s.len()
+                invariant
+                    self.s == old(self).s, p0 == old(self).pos, p0 <= self.pos <= self.s@.len(),
+                    forall|b: u8| f.requires((b,)),
+                    forall|b: u8, x: bool| f.ensures((b,), x) ==> x == super::cls(c@, b),
+                    super::first_from(self.s@, p0, c@) == super::first_from(self.s@, self.pos as int, c@),
+                decreases self.s@.len() - self.pos
+            {
+                let i = self.pos;
+                let b = self.s[i];
+                proof {
+                    assert(super::first_from(self.s@, i as int, c@) == (if super::cls(c@, b) { Some(i as int) } else { super::first_from(self.s@, i + 1, c@) }));
+                }
+                self.pos = i + 1;
+                let hit = f(b);
+                proof { assert(hit == super::cls(c@, b)); }
+                if hit {
+                    proof { assert(super::first_from(self.s@, p0, c@) == Some(i as int)); }
+                    return Some((i, b));
+                }
+            }
+            None
+        }
+    }
+}
+
+/// byte classes the attribute tokenizer searches for
+pub enum Cls { Ws, NotWs, EqOrWs, Byte(u8) }
+pub open spec fn cls(c: Cls, b: u8) -> bool {
+    match c { Cls::Ws => is_ws(b), Cls::NotWs => !is_ws(b), Cls::EqOrWs => b == 0x3d || is_ws(b), Cls::Byte(q) => b == q }
+}
+/// index of the first byte of class `c` at or after `from`
+pub open spec fn first_from(s: Seq<u8>, from: int, c: Cls) -> Option<int> decreases s.len() - from {
+    if from < 0 || from >= s.len() { None } else if cls(c, s[from]) { Some(from) } else { first_from(s, from + 1, c) }
+}
+pub proof fn lemma_first_from(s: Seq<u8>, from: int, c: Cls)
+    requires 0 <= from
+    ensures match first_from(s, from, c) {
+        Some(i) => from <= i < s.len() && cls(c, s[i]) && forall|j: int| from <= j < i ==> !cls(c, #[trigger] s[j]),
+        None => forall|j: int| from <= j < s.len() ==> !cls(c, #[trigger] s[j]),
+    }
+    decreases s.len() - from
+{
+    if from < s.len() && !cls(c, s[from]) { lemma_first_from(s, from + 1, c); }
+}
+
+/// a byte that is not whitespace is not the first whitespace
+pub proof fn lemma_ws_skip_first(s: Seq<u8>, v: int)
+    requires 0 <= v < s.len(), !is_ws(s[v])
+    ensures first_from(s, v, Cls::Ws) == first_from(s, v + 1, Cls::Ws)
+{}
+/// where parsing of the next attribute is attempted (documentation of `AttrError`: "recovery position")
+pub open spec fn recover_spec(st: State, s: Seq<u8>) -> Option<int> {
+    match st {
+        State::Done => None,
+        State::Next(o) => Some(o as int),
+        // after UnquotedValue: behind the unquoted value = the first whitespace after it
+        State::SkipValue(o) => first_from(s, o as int, Cls::Ws),
+        // after Duplicated (o = position of `=`): behind the whole value, quoted or not
+        State::SkipEqValue(o) => match first_from(s, o + 1, Cls::NotWs) {
+            None => None,
+            Some(v) => if s[v] == 0x22 || s[v] == 0x27 {
+                    match first_from(s, v + 1, Cls::Byte(s[v])) { Some(e) => Some(e + 1), None => None }
+                } else { first_from(s, v + 1, Cls::Ws) },
+        },
+    }
+}
+/// type invariant of the iterator state for a tag content of `n` bytes
+pub open spec fn state_ok(st: State, n: nat) -> bool {
+    match st { State::Done => true, State::Next(o) => o <= n, State::SkipValue(o) => o <= n, State::SkipEqValue(o) => o < n }
 }
 
 /// the bytes of a key given by its range
 pub open spec fn key_text(slice: Seq<u8>, r: Range<usize>) -> Seq<u8> { slice.subrange(r.start as int, r.end as int) }
+pub open spec fn rng(a: int, b: int) -> Range<usize> { Range { start: a as usize, end: b as usize } }
+/// index (>= from) of the first remembered key with exactly the same bytes as `key`
+pub open spec fn dup_first(keys: Seq<Range<usize>>, s: Seq<u8>, key: Range<usize>, from: int) -> Option<int> decreases keys.len() - from {
+    if from < 0 || from >= keys.len() { None }
+    else if key_text(s, keys[from]) == key_text(s, key) { Some(from) }
+    else { dup_first(keys, s, key, from + 1) }
+}
+pub proof fn lemma_dup_first(keys: Seq<Range<usize>>, s: Seq<u8>, key: Range<usize>, from: int)
+    requires 0 <= from
+    ensures match dup_first(keys, s, key, from) {
+        Some(i) => from <= i < keys.len() && key_text(s, keys[i]) == key_text(s, key)
+            && forall|j: int| from <= j < i ==> key_text(s, #[trigger] keys[j]) != key_text(s, key),
+        None => forall|j: int| from <= j < keys.len() ==> key_text(s, #[trigger] keys[j]) != key_text(s, key),
+    }
+    decreases keys.len() - from
+{
+    if from < keys.len() && key_text(s, keys[from]) != key_text(s, key) { lemma_dup_first(keys, s, key, from + 1); }
+}
+/// outcome of the duplicate check (documentation of `Attributes::with_checks` and `AttrError::Duplicated`): with
+/// the check on, a key whose bytes equal those of an earlier key is an error naming it and the FIRST such key;
+/// otherwise the key is accepted and (check on) remembered
+pub open spec fn dup_check(check: bool, keys: Seq<Range<usize>>, s: Seq<u8>, key: Range<usize>) -> (core::result::Result<Range<usize>, AttrError>, Seq<Range<usize>>) {
+    if !check { (Ok(key), keys) } else {
+        match dup_first(keys, s, key, 0) {
+            Some(i) => (Err(AttrError::Duplicated(key.start, keys[i].start)), keys),
+            None => (Ok(key), keys.push(key)),
+        }
+    }
+}
+/// result, successor state and remembered keys of one step
+pub struct Step { pub out: Option<AttrResult>, pub state: State, pub keys: Seq<Range<usize>> }
+/// a key that is not followed by `=`: an attribute without value in HTML mode, ExpectedEq(pos) in XML mode
+pub open spec fn key_only_spec(html: bool, check: bool, keys: Seq<Range<usize>>, s: Seq<u8>, key: Range<usize>, pos: int, next: State) -> Step {
+    if html {
+        let (r, k2) = dup_check(check, keys, s, key);
+        Step { out: Some(match r { Ok(k) => Ok(Attr::Empty(k)), Err(e) => Err(e) }), state: next, keys: k2 }
+    } else { Step { out: Some(Err(AttrError::ExpectedEq(pos as usize))), state: next, keys } }
+}
+/// key and `=` (at `eq`) found: duplicate check, then the value
+pub open spec fn value_spec(html: bool, check: bool, keys: Seq<Range<usize>>, s: Seq<u8>, key: Range<usize>, eq: int) -> Step {
+    let n = s.len() as int;
+    let (r, k2) = dup_check(check, keys, s, key);
+    match r {
+        // recovery skips `=` and the whole value
+        Err(e) => Step { out: Some(Err(e)), state: State::SkipEqValue(eq as usize), keys: k2 },
+        Ok(_) => match first_from(s, eq + 1, Cls::NotWs) {
+            None => Step { out: Some(Err(AttrError::ExpectedValue(n as usize))), state: State::Done, keys: k2 },
+            Some(v) => if s[v] == 0x22 || s[v] == 0x27 {
+                    match first_from(s, v + 1, Cls::Byte(s[v])) {
+                        Some(e) => Step { out: Some(Ok(if s[v] == 0x22 { Attr::DoubleQ(key, rng(v + 1, e)) } else { Attr::SingleQ(key, rng(v + 1, e)) })),
+                                          state: State::Next((e + 1) as usize), keys: k2 },
+                        None => Step { out: Some(Err(AttrError::ExpectedQuote(n as usize, s[v]))), state: State::Done, keys: k2 },
+                    }
+                } else if html {
+                    let e = match first_from(s, v + 1, Cls::Ws) { Some(e) => e, None => n };
+                    Step { out: Some(Ok(Attr::Unquoted(key, rng(v, e)))), state: State::Next(e as usize), keys: k2 }
+                } else {
+                    // recovery skips the unquoted value
+                    Step { out: Some(Err(AttrError::UnquotedValue(v as usize))), state: State::SkipValue(v as usize), keys: k2 }
+                },
+        },
+    }
+}
+/// ONE STEP of the attribute iterator, written from the documentation of `Attributes` / `AttrError`: blanks, a
+/// key of at least one byte ending at `=` or a blank, optional blanks, `=`, optional blanks, a quoted value
+/// (or, HTML mode, an unquoted one ending at a blank) -- or the documented error with its position and the
+/// documented recovery point
+pub open spec fn next_spec(st: State, html: bool, check: bool, keys: Seq<Range<usize>>, s: Seq<u8>) -> Step {
+    let n = s.len() as int;
+    match recover_spec(st, s) {
+        None => Step { out: None, state: st, keys },
+        Some(offset) => match first_from(s, offset, Cls::NotWs) {
+            None => Step { out: None, state: State::Done, keys },
+            Some(k0) => match first_from(s, k0 + 1, Cls::EqOrWs) {
+                None => key_only_spec(html, check, keys, s, rng(k0, n), n, State::Done),
+                Some(k1) => if s[k1] == 0x3d { value_spec(html, check, keys, s, rng(k0, k1), k1) } else {
+                    match first_from(s, k1 + 1, Cls::NotWs) {
+                        None => key_only_spec(html, check, keys, s, rng(k0, k1), n, State::Done),
+                        Some(p) => if s[p] == 0x3d { value_spec(html, check, keys, s, rng(k0, k1), p) }
+                                   else { key_only_spec(html, check, keys, s, rng(k0, k1), p, State::Next(p as usize)) },
+                    }
+                },
+            },
+        },
+    }
+}
 /// every remembered key lies inside the tag content
 pub open spec fn keys_in(keys: Seq<Range<usize>>, n: nat) -> bool {
     forall|i: int| 0 <= i < keys.len() ==> (#[trigger] keys[i]).start <= keys[i].end && keys[i].end <= n
 }
 
+//@extract attributes::Attr | src/events/attributes.rs :: enum Attr | serves=C11
+ pub enum Attr<T> {
+    /// Attribute with value enclosed in double quotes (`"`). Attribute key and
+    /// value provided. This is a canonical XML-style attribute.
+    DoubleQ(T, T),
+    /// Attribute with value enclosed in single quotes (`'`). Attribute key and
+    /// value provided. This is an XML-style attribute.
+    SingleQ(T, T),
+    /// Attribute with value not enclosed in quotes. Attribute key and value
+    /// provided. This is HTML-style attribute, it can be returned in HTML-mode
+    /// parsing only. In an XML mode [`AttrError::UnquotedValue`] will be raised
+    /// instead.
+    ///
+    /// Attribute value can be invalid according to the [HTML specification],
+    /// in particular, it can contain `"`, `'`, `=`, `<`, and <code>&#96;</code>
+    /// characters. The absence of the `>` character is nevertheless guaranteed,
+    /// since the parser extracts [events] based on them even before the start
+    /// of parsing attributes.
+    ///
+    /// [HTML specification]: https://html.spec.whatwg.org/#unquoted
+    /// [events]: crate::events::Event::Start
+    Unquoted(T, T),
+    /// Attribute without value. Attribute key provided. This is HTML-style attribute,
+    /// it can be returned in HTML-mode parsing only. In XML mode
+    /// [`AttrError::ExpectedEq`] will be raised instead.
+    Empty(T),
+}
+//@end
+/// transcription of `type AttrResult = Result<Attr<Range<usize>>, AttrError>;`
+pub type AttrResult = core::result::Result<Attr<Range<usize>>, AttrError>;
 //@extract attributes::AttrError | src/events/attributes.rs :: enum AttrError | serves=C09,C11
- enum AttrError {
+ pub enum AttrError {
     /// Attribute key was not followed by `=`, position relative to the start of
     /// the owning tag is provided.
     ///
@@ -129,7 +339,7 @@ pub open spec fn keys_in(keys: Seq<Range<usize>>, n: nat) -> bool {
 }
 //@end
 //@extract attributes::State | src/events/attributes.rs :: enum State | serves=C11
-enum State {
+pub enum State {
     /// Iteration finished, iterator will return `None` to all [`IterState::next`]
     /// requests.
     Done,
@@ -188,6 +398,7 @@ impl IterState {
         ensures
             final(self).state == old(self).state, final(self).html == old(self).html, final(self).check_duplicates == old(self).check_duplicates,
             keys_in(final(self).keys@, slice@.len()),
+            (r, final(self).keys@) == dup_check(old(self).check_duplicates, old(self).keys@, slice@, key),
             // C11 / C09: with the check on, a key is a duplicate iff an earlier key has EXACTLY the same bytes; the
             // error names this key and the FIRST such earlier key; a new key is remembered, a duplicate is not.
             // With the check off nothing is remembered and nothing is rejected.
@@ -203,6 +414,7 @@ impl IterState {
                         && e == AttrError::Duplicated(key.start, old(self).keys@[i].start),
             },
     {
+        proof { lemma_dup_first(self.keys@, slice@, key, 0); }
         if self.check_duplicates {
             if let Some(prev) = shim_a::find_ref(&self.keys, |r: &&Range<usize>| -> (b: bool)
                     requires (**r).start <= (**r).end && (**r).end <= slice@.len()
@@ -214,6 +426,324 @@ impl IterState {
             self.keys.push(key.clone());
         }
         Ok(key)
+    }
+//@end
+//@extract attributes::IterState::recover | src/events/attributes.rs :: impl IterState :: fn recover | serves=C11
+    /// Recover from an error that could have been made on a previous step.
+    /// Returns an offset from which parsing should continue.
+    /// If there no input left, returns `None`.
+    fn recover(&self, slice: &[u8]) -> (r: Option<usize>)
+        requires state_ok(self.state, slice@.len())
+        ensures match recover_spec(self.state, slice@) { Some(o) => r == Some(o as usize) && 0 <= o <= slice@.len(), None => r is None }
+    {
+        match self.state {
+            State::Done => None,
+            State::Next(offset) => Some(offset),
+            State::SkipValue(offset) => self.skip_value(slice, offset),
+            State::SkipEqValue(offset) => self.skip_eq_value(slice, offset),
+        }
+    }
+//@end
+//@extract attributes::IterState::skip_value | src/events/attributes.rs :: impl IterState :: fn skip_value | serves=C11
+//@rewrite (offset..).zip(slice[offset..].iter()) ==> shim_a::Cursor::new(offset, slice)
+//@rewrite-all iter.find(|(_, &b)| ==> iter.find(|b: u8|
+    fn skip_value(&self, slice: &[u8], offset: usize) -> (r: Option<usize>)
+        requires offset <= slice@.len()
+        ensures match first_from(slice@, offset as int, Cls::Ws) { Some(e) => r == Some(e as usize) && offset <= e < slice@.len(), None => r is None }
+    {
+        let mut iter = shim_a::Cursor::new(offset, slice);
+
+        match iter.find(Ghost(Cls::Ws), |b: u8| -> (x: bool) ensures x == cls(Cls::Ws, b) { is_whitespace(b) }) {
+            // Input: `    key  =  value `
+            //                     |    ^
+            //                offset    e
+            Some((e, _)) => Some(e),
+            // Input: `    key  =  value`
+            //                     |    ^
+            //                offset    e = len()
+            None => None,
+        }
+    }
+//@end
+//@extract attributes::IterState::skip_eq_value | src/events/attributes.rs :: impl IterState :: fn skip_eq_value | serves=C11
+//@rewrite (offset + 1..).zip(slice[offset + 1..].iter()) ==> shim_a::Cursor::new(offset + 1, slice)
+//@rewrite-all iter.find(|(_, &b)| ==> iter.find(|b: u8|
+    fn skip_eq_value(&self, slice: &[u8], offset: usize) -> (r: Option<usize>)
+        requires offset < slice@.len()
+        ensures match recover_spec(State::SkipEqValue(offset), slice@) { Some(o) => r == Some(o as usize) && 0 <= o <= slice@.len(), None => r is None }
+    {
+        proof { axiom_slice_len(slice); }
+        // `offset` is the position of `=`, the value is searched after it
+        let mut iter = shim_a::Cursor::new(offset + 1, slice);
+
+        // Skip all up to the quote and get the quote type
+        let quote = match iter.find(Ghost(Cls::NotWs), |b: u8| -> (x: bool) ensures x == cls(Cls::NotWs, b) { !is_whitespace(b) }) {
+            // Input: `    key  =  "`
+            //                  |  ^
+            //             offset
+            Some((_, b'"')) => b'"',
+            // Input: `    key  =  '`
+            //                  |  ^
+            //             offset
+            Some((_, b'\'')) => b'\'',
+
+            // Input: `    key  =  x`
+            //                  |  ^
+            //             offset
+            Some((offset, _)) => { proof { lemma_ws_skip_first(slice@, offset as int); } return self.skip_value(slice, offset) },
+            // Input: `    key  =  `
+            //                  |  ^
+            //             offset
+            None => return None,
+        };
+
+        match iter.find(Ghost(Cls::Byte(quote)), |b: u8| -> (x: bool) ensures x == cls(Cls::Byte(quote), b) { b == quote }) {
+            // Input: `    key  =  "   "`
+            //                          ^
+            Some((e, b'"')) => Some(e + 1), // +1 for `"`
+            // Input: `    key  =  '   '`
+            //                          ^
+            Some((e, _)) => Some(e + 1), // +1 for `'`
+
+            // Input: `    key  =  "   `
+            // Input: `    key  =  '   `
+            //                         ^
+            // Closing quote not found
+            None => None,
+        }
+    }
+//@end
+//@extract attributes::IterState::key_only | src/events/attributes.rs :: impl IterState :: fn key_only | serves=C11
+//@rewrite .map(Attr::Empty) ==> .map(|k: Range<usize>| Attr::Empty(k))
+    fn key_only(&mut self, slice: &[u8], key: Range<usize>, offset: usize) -> (r: Option<AttrResult>)
+        requires key.start <= key.end <= slice@.len(), keys_in(old(self).keys@, slice@.len()),
+        ensures
+            final(self).state == old(self).state, final(self).html == old(self).html, final(self).check_duplicates == old(self).check_duplicates,
+            keys_in(final(self).keys@, slice@.len()),
+            ({ let st = key_only_spec(old(self).html, old(self).check_duplicates, old(self).keys@, slice@, key, offset as int, old(self).state);
+               r == st.out && final(self).keys@ == st.keys }),
+    {
+        Some(if self.html {
+            self.check_for_duplicates(slice, key).map(|k: Range<usize>| -> (a: Attr<Range<usize>>) ensures a == Attr::Empty(k) { Attr::Empty(k) })
+        } else {
+            Err(AttrError::ExpectedEq(offset))
+        })
+    }
+//@end
+//@extract attributes::IterState::double_q | src/events/attributes.rs :: impl IterState :: fn double_q | serves=C11
+    fn double_q(&mut self, key: Range<usize>, value: Range<usize>) -> (r: Option<AttrResult>)
+        requires value.end < usize::MAX
+        ensures r == Some::<AttrResult>(Ok(Attr::DoubleQ(key, value))), final(self).state == State::Next((value.end + 1) as usize),
+            final(self).html == old(self).html, final(self).check_duplicates == old(self).check_duplicates, final(self).keys == old(self).keys,
+    {
+        self.state = State::Next(value.end + 1); // +1 for `"`
+
+        Some(Ok(Attr::DoubleQ(key, value)))
+    }
+//@end
+//@extract attributes::IterState::single_q | src/events/attributes.rs :: impl IterState :: fn single_q | serves=C11
+    fn single_q(&mut self, key: Range<usize>, value: Range<usize>) -> (r: Option<AttrResult>)
+        requires value.end < usize::MAX
+        ensures r == Some::<AttrResult>(Ok(Attr::SingleQ(key, value))), final(self).state == State::Next((value.end + 1) as usize),
+            final(self).html == old(self).html, final(self).check_duplicates == old(self).check_duplicates, final(self).keys == old(self).keys,
+    {
+        self.state = State::Next(value.end + 1); // +1 for `'`
+
+        Some(Ok(Attr::SingleQ(key, value)))
+    }
+//@end
+//@extract attributes::IterState::next | src/events/attributes.rs :: impl IterState :: fn next | serves=C11
+//@rewrite (offset..).zip(slice[offset..].iter()) ==> shim_a::Cursor::new(offset, slice)
+//@rewrite-all iter.find(|(_, &b)| ==> iter.find(|b: u8|
+ fn next(&mut self, slice: &[u8]) -> (r: Option<AttrResult>)
+        requires state_ok(old(self).state, slice@.len()), keys_in(old(self).keys@, slice@.len())
+        ensures
+            // C11: one call = one documented step, for every tag content, every state, every number of keys seen
+            ({ let st = next_spec(old(self).state, old(self).html, old(self).check_duplicates, old(self).keys@, slice@);
+               r == st.out && final(self).state == st.state && final(self).keys@ == st.keys }),
+            final(self).html == old(self).html, final(self).check_duplicates == old(self).check_duplicates,
+            // the type invariant is kept, so the next call is covered again (induction over the calls)
+            state_ok(final(self).state, slice@.len()), keys_in(final(self).keys@, slice@.len()),
+    {
+        proof { axiom_slice_len(slice); }
+        let mut iter = match self.recover(slice) {
+            Some(offset) => shim_a::Cursor::new(offset, slice),
+            None => return None,
+        };
+
+        // Index where next key started
+        let start_key = match iter.find(Ghost(Cls::NotWs), |b: u8| -> (x: bool) ensures x == cls(Cls::NotWs, b) { !is_whitespace(b) }) {
+            // Input: `    key`
+            //             ^
+            Some((s, _)) => s,
+            // Input: `    `
+            //             ^
+            None => {
+                // Because we reach end-of-input, stop iteration on next call
+                self.state = State::Done;
+                return None;
+            }
+        };
+        // Span of a key
+        let (key, offset) = match iter.find(Ghost(Cls::EqOrWs), |b: u8| -> (x: bool) ensures x == cls(Cls::EqOrWs, b) { b == b'=' || is_whitespace(b) }) {
+            // Input: `    key=`
+            //             |  ^
+            //             s  e
+            Some((e, b'=')) => (start_key..e, e),
+
+            // Input: `    key `
+            //                ^
+            Some((e, _)) => match iter.find(Ghost(Cls::NotWs), |b: u8| -> (x: bool) ensures x == cls(Cls::NotWs, b) { !is_whitespace(b) }) {
+                // Input: `    key  =`
+                //             |  | ^
+                //     start_key  e
+                Some((offset, b'=')) => (start_key..e, offset),
+                // Input: `    key  x`
+                //             |  | ^
+                //     start_key  e
+                // If HTML-like attributes is allowed, this is the result, otherwise error
+                Some((offset, _)) => {
+                    // In any case, recovering is not required
+                    self.state = State::Next(offset);
+                    return self.key_only(slice, start_key..e, offset);
+                }
+                // Input: `    key  `
+                //             |  | ^
+                //     start_key  e
+                // If HTML-like attributes is allowed, this is the result, otherwise error
+                None => {
+                    // Because we reach end-of-input, stop iteration on next call
+                    self.state = State::Done;
+                    return self.key_only(slice, start_key..e, slice.len());
+                }
+            },
+
+            // Input: `    key`
+            //             |  ^
+            //             s  e = len()
+            // If HTML-like attributes is allowed, this is the result, otherwise error
+            None => {
+                // Because we reach end-of-input, stop iteration on next call
+                self.state = State::Done;
+                let e = slice.len();
+                return self.key_only(slice, start_key..e, e);
+            }
+        };
+
+        let key = match self.check_for_duplicates(slice, key) {
+            Err(e) => {
+                self.state = State::SkipEqValue(offset);
+                return Some(Err(e));
+            }
+            Ok(key) => key,
+        };
+
+        ////////////////////////////////////////////////////////////////////////
+
+        // Gets the position of quote and quote type
+        let (start_value, quote) = match iter.find(Ghost(Cls::NotWs), |b: u8| -> (x: bool) ensures x == cls(Cls::NotWs, b) { !is_whitespace(b) }) {
+            // Input: `    key  =  "`
+            //                     ^
+            Some((s, b'"')) => (s + 1, b'"'),
+            // Input: `    key  =  '`
+            //                     ^
+            Some((s, b'\'')) => (s + 1, b'\''),
+
+            // Input: `    key  =  x`
+            //                     ^
+            // If HTML-like attributes is allowed, this is the start of the value
+            Some((s, _)) if self.html => {
+                // We do not check validity of attribute value characters as required
+                // according to https://html.spec.whatwg.org/#unquoted. It can be done
+                // during validation phase
+                let end = match iter.find(Ghost(Cls::Ws), |b: u8| -> (x: bool) ensures x == cls(Cls::Ws, b) { is_whitespace(b) }) {
+                    // Input: `    key  =  value `
+                    //                     |    ^
+                    //                     s    e
+                    Some((e, _)) => e,
+                    // Input: `    key  =  value`
+                    //                     |    ^
+                    //                     s    e = len()
+                    None => slice.len(),
+                };
+                self.state = State::Next(end);
+                return Some(Ok(Attr::Unquoted(key, s..end)));
+            }
+            // Input: `    key  =  x`
+            //                     ^
+            Some((s, _)) => {
+                self.state = State::SkipValue(s);
+                return Some(Err(AttrError::UnquotedValue(s)));
+            }
+
+            // Input: `    key  =  `
+            //                     ^
+            None => {
+                // Because we reach end-of-input, stop iteration on next call
+                self.state = State::Done;
+                return Some(Err(AttrError::ExpectedValue(slice.len())));
+            }
+        };
+
+        match iter.find(Ghost(Cls::Byte(quote)), |b: u8| -> (x: bool) ensures x == cls(Cls::Byte(quote), b) { b == quote }) {
+            // Input: `    key  =  "   "`
+            //                         ^
+            Some((e, b'"')) => self.double_q(key, start_value..e),
+            // Input: `    key  =  '   '`
+            //                         ^
+            Some((e, _)) => self.single_q(key, start_value..e),
+
+            // Input: `    key  =  "   `
+            // Input: `    key  =  '   `
+            //                         ^
+            // Closing quote not found
+            None => {
+                // Because we reach end-of-input, stop iteration on next call
+                self.state = State::Done;
+                Some(Err(AttrError::ExpectedQuote(slice.len(), quote)))
+            }
+        }
+    }
+//@end
+}
+
+//@extract attributes::Attributes | src/events/attributes.rs :: struct Attributes | serves=C11
+ struct Attributes<'a> {
+    /// Slice of `BytesStart` corresponding to attributes
+    bytes: &'a [u8],
+    /// Iterator state, independent from the actual source of bytes
+    state: IterState,
+}
+//@end
+impl<'a> Attributes<'a> {
+//@extract attributes::Attributes::wrap | src/events/attributes.rs :: impl<'a> Attributes<'a> :: fn wrap | serves=C11
+ fn wrap(buf: &'a [u8], pos: usize, html: bool) -> (r: Self)
+        ensures r.bytes == buf, r.state.html == html, r.state.check_duplicates, r.state.keys@.len() == 0, r.state.state == State::Next(pos)
+ {
+        Self {
+            bytes: buf,
+            state: IterState::new(pos, html),
+        }
+    }
+//@end
+}
+impl<'a> BytesStart<'a> {
+//@extract events::BytesStart::attributes | src/events/mod.rs :: impl<'a> BytesStart<'a> :: fn attributes | serves=C09,C11
+ fn attributes(&self) -> (r: Attributes)
+        // XML rules: every attribute needs `=` and a quoted value; iteration starts behind the name; duplicates are checked
+        ensures r.bytes@ == self.buf@, !r.state.html, r.state.check_duplicates, r.state.keys@.len() == 0, r.state.state == State::Next(self.name_len)
+ {
+        proof { axiom_cow_bytes(&self.buf); }
+        Attributes::wrap(&self.buf, self.name_len, false)
+    }
+//@end
+//@extract events::BytesStart::html_attributes | src/events/mod.rs :: impl<'a> BytesStart<'a> :: fn html_attributes | serves=C11
+ fn html_attributes(&self) -> (r: Attributes)
+        // HTML rules: unquoted values and attributes without value are accepted
+        ensures r.bytes@ == self.buf@, r.state.html, r.state.check_duplicates, r.state.keys@.len() == 0, r.state.state == State::Next(self.name_len)
+ {
+        proof { axiom_cow_bytes(&self.buf); }
+        Attributes::wrap(&self.buf, self.name_len, true)
     }
 //@end
 }
